@@ -362,8 +362,10 @@ def check(pid, reg, args, seed, t_start):
         'wall_s': round(time.time() - t_start, 1),
         'violations': len(violations),
     }
-    os.makedirs(os.path.join(VERIF, 'evidence'), exist_ok=True)
-    json.dump(ev, open(os.path.join(VERIF, 'evidence', pid + '.json'), 'w'), indent=1, ensure_ascii=False)
+    # development runs (--only) and mutation campaigns (VERIF_EVIDENCE_DIR) must not overwrite the record of the last full run
+    evdir = os.environ.get('VERIF_EVIDENCE_DIR') or (os.path.join(VERIF, '.cache', 'evidence-partial') if args.only else os.path.join(VERIF, 'evidence'))
+    os.makedirs(evdir, exist_ok=True)
+    json.dump(ev, open(os.path.join(evdir, pid + '.json'), 'w'), indent=1, ensure_ascii=False)
 
     for k in known_hits:
         print('KNOWN-FINDING: %s' % k['text'])
